@@ -155,6 +155,28 @@ def pipeline(payload):
         seen["cols"] = [[v for v in input_dataframe[c].tolist()] for c in input_dataframe.columns]
         return real_mrg(input_dataframe, args, cpu_pool, pbar)
 
+    # harness-side observers (the real functions run unchanged): the combinations selected for scoring, and -- opt-in,
+    # in-process pools only -- the coded frame handed to the scorer
+    real_pcs = cr.prior_combinations_sample
+    real_giep = cr.get_importances_estimate_pairwise
+
+    def recording_pcs(*a, **k):
+        r = real_pcs(*a, **k)
+        try:
+            seen["selected"] = [[str(x) for x in c] for c in r]
+        except Exception:
+            pass
+        return r
+
+    def recording_giep(*a, **k):
+        if "codes" not in seen:
+            try:
+                tmp = k.get("tmp_df", a[3] if len(a) > 3 else None)
+                seen["codes"] = {str(c): [int(v) for v in tmp[c].tolist()] for c in tmp.columns}
+            except Exception:
+                seen["codes"] = None
+        return real_giep(*a, **k)
+
     for idx, case in enumerate(payload["cases"]):
         cr.GLOBAL_CARDINALITY_STORAGE = dict()
         cr.GLOBAL_COUNTS_STORAGE = dict()
@@ -177,6 +199,9 @@ def pipeline(payload):
         try:
             seen.clear()
             pool, release = make_pool(case.get("pool"))
+            cr.prior_combinations_sample = recording_pcs
+            if case.get("record_codes") and (case.get("pool") or {}).get("kind", "fake") != "real":
+                cr.get_importances_estimate_pairwise = recording_giep
             if case.get("entry", "mrg") == "cbr":
                 cr.mixed_rank_graph = recording_mrg
                 try:
@@ -189,11 +214,14 @@ def pipeline(payload):
                 res = real_mrg(df, args, pool, Quiet())
                 frame = None
             trip = [[str(t[0]), str(t[1]), jfloat(t[2])] for t in res.triplet_scores]
-            out = {"ok": True, "triplets": trip, "frame": frame}
+            out = {"ok": True, "triplets": trip, "frame": frame, "selected": seen.get("selected"),
+                   "codes": seen.get("codes")}
         except Exception as e:  # an outcome, judged by the harness
             import traceback
             out = {"ok": False, "error": "%s: %s" % (type(e).__name__, e), "trace": traceback.format_exc()[-1500:]}
         finally:
+            cr.prior_combinations_sample = real_pcs
+            cr.get_importances_estimate_pairwise = real_giep
             release()
         sys.stdout.write("@@CASE %d %s\n" % (idx, json.dumps(out)))
         sys.stdout.flush()
